@@ -17,6 +17,7 @@ def kindOf (s : String) : P Kind :=
   | "static" => pure .static
   | "traj" => pure .dynTraj
   | "none" => pure .dynNone
+  | "set" => pure .dynSet
   | _ => throw s!"unknown obstacle kind {s}"
 
 def lookOf (j : Json) : P (T × List Id × List Id) := do
